@@ -13,9 +13,13 @@
         path   s = STARTTLS (xmpp_connect_client, the scripted server offers <starttls/> and answers
                <proceed/>), l = legacy SSL (flag LEGACY_SSL, TLS from the first byte), d = direct
                (xmpp_connect_raw + xmpp_conn_tls_start after RAW_CONNECT)
-        flags  xmpp_conn_set_flags() word (LEGACY_SSL is added for path l)
-        cb     none | acc | rej | kN (accept the first N invocations) | rN (reject invocation N,
-               0-based) | vN (answer the integer N every time)
+        flags  comma list of xmpp_conn_set_flags() words, applied in this order (LEGACY_SSL is added to
+               every word for path l); the last one must be accepted
+        cb     comma list, one xmpp_conn_set_certfail_handler call each: none (NULL) | acc | rej |
+               kN (accept the first N invocations) | rN (reject invocation N, 0-based) | vN (answer
+               the integer N every time)
+        A `cfg` on a connection object that has been used and is DISCONNECTED again starts another
+        round on the same object (reconnect); a CA file / path cannot be unset.
         ca     none | file | path | env | other | missing
                (file: xmpp_conn_set_cafile(test root); path: xmpp_conn_set_capath(hashed dir);
                env: nothing set, SSL_CERT_FILE names the test root (default store); other: cafile
@@ -46,6 +50,7 @@
    probe [raw]  xmpp_send_raw_string("<probe/>") (raw: xmpp_send_raw, which is not gated by the stream
                 negotiation) + 2 loop iterations -> = io sec= st= ev= clear= enc=
    tick MS      virtual clock += MS, 2 loop iterations               -> = io …
+   drop         conn_disconnect() (what every fatal error does) + 1 loop iteration -> = io …
    end          release everything -> = end live=<blocks still allocated>
    ORACLE-FAIL lines: hyp-openssl <what> (the recorded run contradicts H-openssl), errstr,
    wrong-cert, stall, setup. */
@@ -254,14 +259,19 @@ enum { CB_NONE, CB_ACC, CB_REJ, CB_K, CB_R, CB_V };
 enum { CA_NONE, CA_FILE, CA_PATH, CA_ENV, CA_OTHER, CA_MISSING };
 enum { SRV_OK, SRV_CLOSE, SRV_GARBAGE, SRV_MUTE };
 
+#define MAXSEQ 8
 static struct {
     int set;
     char *domain;
     int path, cbmode, cbarg, ca, srv;
-    long flags;
+    long flags[MAXSEQ]; /* successive xmpp_conn_set_flags words */
+    int nflags;
+    int cbseq[MAXSEQ]; /* successive xmpp_conn_set_certfail_handler calls: 1 = handler, 0 = NULL */
+    int ncbseq;
     X509 *leaf, *inter;
     int send_inter, send_unk;
 } cfg;
+static int prev_ca = -1; /* CA mode of the previous round on the same connection object */
 
 static void cfg_reset(void)
 {
@@ -1029,6 +1039,7 @@ static void teardown(void)
     srv_reset();
     ob_reset();
     cfg_reset();
+    prev_ca = -1;
     e_events[0] = 0;
     e_raw_seen = 0;
     idle_spins = 0;
@@ -1109,19 +1120,42 @@ static int do_cfg(char **tok, int n)
             have_dom = 1;
         } else if (parse_kv(tok[i], "path", &v))
             cfg.path = !strcmp(v, "s") ? P_STARTTLS : !strcmp(v, "l") ? P_LEGACY : !strcmp(v, "d") ? P_DIRECT : -1;
-        else if (parse_kv(tok[i], "flags", &v))
-            cfg.flags = strtol(v, NULL, 10);
-        else if (parse_kv(tok[i], "cb", &v)) {
-            if (!strcmp(v, "none"))
-                cfg.cbmode = CB_NONE;
-            else if (!strcmp(v, "acc"))
-                cfg.cbmode = CB_ACC;
-            else if (!strcmp(v, "rej"))
-                cfg.cbmode = CB_REJ;
-            else if (v[0] == 'k' || v[0] == 'r' || v[0] == 'v') {
-                cfg.cbmode = v[0] == 'k' ? CB_K : v[0] == 'r' ? CB_R : CB_V;
-                cfg.cbarg = atoi(v + 1);
-            } else
+        else if (parse_kv(tok[i], "flags", &v)) {
+            char *q = v;
+            cfg.nflags = 0;
+            while (*q && cfg.nflags < MAXSEQ) {
+                cfg.flags[cfg.nflags++] = strtol(q, &q, 10);
+                if (*q == ',')
+                    q++;
+                else if (*q)
+                    return -1;
+            }
+        } else if (parse_kv(tok[i], "cb", &v)) {
+            /* a comma list: every entry is one xmpp_conn_set_certfail_handler call; the behaviour of
+               the handler is that of the last entry that is not `none` */
+            char *q = v;
+            cfg.ncbseq = 0;
+            while (q && *q && cfg.ncbseq < MAXSEQ) {
+                char *c = strchr(q, ',');
+                if (c)
+                    *c = 0;
+                if (!strcmp(q, "none"))
+                    cfg.cbseq[cfg.ncbseq++] = 0;
+                else {
+                    cfg.cbseq[cfg.ncbseq++] = 1;
+                    if (!strcmp(q, "acc"))
+                        cfg.cbmode = CB_ACC;
+                    else if (!strcmp(q, "rej"))
+                        cfg.cbmode = CB_REJ;
+                    else if ((q[0] == 'k' || q[0] == 'r' || q[0] == 'v') && q[1]) {
+                        cfg.cbmode = q[0] == 'k' ? CB_K : q[0] == 'r' ? CB_R : CB_V;
+                        cfg.cbarg = atoi(q + 1);
+                    } else
+                        return -1;
+                }
+                q = c ? c + 1 : NULL;
+            }
+            if (!cfg.ncbseq)
                 return -1;
         } else if (parse_kv(tok[i], "ca", &v)) {
             cfg.ca = !strcmp(v, "none")      ? CA_NONE
@@ -1167,28 +1201,42 @@ static int do_cfg(char **tok, int n)
 static void do_start(void)
 {
     char jid[1200];
-    int rc = 0, have_rc = 0, i, after = -1;
-    long flags = cfg.flags;
+    int rc = 0, have_rc = 0, i, after = -1, reused = 0;
+    long flags = 0;
     /* hermetic default trust store: nothing, unless ca=env */
     setenv("SSL_CERT_DIR", z_nofile, 1);
     setenv("SSL_CERT_FILE", cfg.ca == CA_ENV ? z_cafile : z_nofile, 1);
-    e_ctx = xmpp_ctx_new(&hmem, getenv("HTLS_DEBUG") ? xmpp_get_default_logger(XMPP_LEVEL_DEBUG) : &hlog_quiet);
-    e_conn = xmpp_conn_new(e_ctx);
-    if (cfg.path == P_LEGACY)
-        flags |= XMPP_CONN_FLAG_LEGACY_SSL;
-    if (xmpp_conn_set_flags(e_conn, flags) != 0) {
+    if (!e_conn) {
+        e_ctx = xmpp_ctx_new(&hmem, getenv("HTLS_DEBUG") ? xmpp_get_default_logger(XMPP_LEVEL_DEBUG) : &hlog_quiet);
+        e_conn = xmpp_conn_new(e_ctx);
+    } else
+        reused = 1;
+    /* every word is one xmpp_conn_set_flags call; the last one must be accepted */
+    if (!cfg.nflags)
+        cfg.flags[cfg.nflags++] = 0;
+    for (i = 0; i < cfg.nflags; i++) {
+        flags = cfg.flags[i];
+        if (cfg.path == P_LEGACY)
+            flags |= XMPP_CONN_FLAG_LEGACY_SSL;
+        rc = xmpp_conn_set_flags(e_conn, flags);
+    }
+    if (rc != 0) {
         fprintf(t_out, "= start bad-flags\n");
         return;
     }
     snprintf(jid, sizeof(jid), "user@%s", cfg.domain);
     xmpp_conn_set_jid(e_conn, jid);
     xmpp_conn_set_pass(e_conn, "secret");
-    switch (cfg.cbmode) {
-    case CB_NONE:
-        break;
-    default:
-        xmpp_conn_set_certfail_handler(e_conn, user_handler);
-    }
+    for (i = 0; i < cfg.ncbseq; i++)
+        if (cfg.cbseq[i])
+            xmpp_conn_set_certfail_handler(e_conn, user_handler);
+        else if (reused || i > 0)
+            xmpp_conn_set_certfail_handler(e_conn, NULL);
+    if (!cfg.ncbseq && reused)
+        xmpp_conn_set_certfail_handler(e_conn, NULL);
+    /* the handler as it is installed now */
+    if (!e_conn->certfail_handler)
+        cfg.cbmode = CB_NONE;
     switch (cfg.ca) {
     case CA_FILE:
         xmpp_conn_set_cafile(e_conn, z_cafile);
@@ -1205,6 +1253,7 @@ static void do_start(void)
     default:
         break;
     }
+    prev_ca = cfg.ca;
     expect_socket = 1;
     select_calls_at_start = hselect_calls;
     if (cfg.path == P_DIRECT)
@@ -1330,19 +1379,33 @@ int eng_tls(FILE *in, FILE *out)
             continue;
         }
         if (!strcmp(tok[0], "cfg")) {
-            if (e_conn || do_cfg(tok, n) < 0) {
+            /* a second round on the same connection object: only once it is disconnected; a CA
+               file / directory cannot be taken back through the API */
+            if ((e_conn && e_conn->state != XMPP_STATE_DISCONNECTED) || do_cfg(tok, n) < 0 ||
+                (e_conn && prev_ca != cfg.ca && (cfg.ca == CA_NONE || cfg.ca == CA_ENV) &&
+                 (prev_ca != CA_NONE && prev_ca != CA_ENV))) {
                 cfg.set = 0;
                 fprintf(out, "= bad-op\n");
-            } else
+            } else {
+                if (e_conn) {
+                    srv_reset();
+                    ob_reset();
+                    e_events[0] = 0;
+                    e_raw_seen = 0;
+                    idle_spins = 0;
+                    g_connect_calls = g_hs_done = 0;
+                }
                 fprintf(out, "= cfg ok\n");
+            }
             continue;
         }
         fflush(out);
         if (n == 1 && !strcmp(tok[0], "start")) {
-            if (!cfg.set || e_conn) {
+            if (!cfg.set) {
                 fprintf(out, "= bad-op\n");
                 continue;
             }
+            cfg.set = 0;
             do_start();
             continue;
         }
@@ -1356,6 +1419,16 @@ int eng_tls(FILE *in, FILE *out)
             else
                 xmpp_send_raw_string(e_conn, "<probe/>");
             loop_once();
+            loop_once();
+            report_io("= io");
+            continue;
+        }
+        if (n == 1 && !strcmp(tok[0], "drop")) {
+            if (!e_conn) {
+                fprintf(out, "= bad-op\n");
+                continue;
+            }
+            conn_disconnect(e_conn);
             loop_once();
             report_io("= io");
             continue;
